@@ -219,6 +219,9 @@ fn gen_config(r: &mut Rng) -> SimConfig {
             mask: [None, Some("*!*@10.0.0.2".to_string()), Some("*!*@10.9.9.9".to_string())][r.below(3)].clone(),
         });
     }
+    if r.chance(1, 3) {
+        cfg.users.push(UserCfg { name: ["u2", "u0", "guest"][r.below(3)].into(), nick: "cat".into(), password: if r.chance(1, 2) { Some("otherpass".into()) } else { None }, mask: if r.chance(1, 3) { Some("*!*@10.8.8.8".into()) } else { None } });
+    }
     let nch = r.below(3);
     for i in 0..nch {
         let mut ch = ChanCfg { name: ["#pre", "#sec"][i].into(), ..Default::default() };
